@@ -994,7 +994,7 @@ func ApplyEdit(p *Program, e Edit) (q *Program, ok bool, site string) {
 		return q, true, fmt.Sprintf("typedef %s in %s", c.d.Name, q.Files[c.fi].Name)
 	case "change-namespace":
 		if len(ed.f.Namespaces) == 0 {
-			ed.f.Namespaces = append(ed.f.Namespaces, Namespace{"java", "org.addedns"})
+			ed.f.Namespaces = append(ed.f.Namespaces, Namespace{Scope: "java", Value: "org.addedns"})
 		} else if e.B%2 == 0 {
 			ed.f.Namespaces = ed.f.Namespaces[1:]
 		} else {
